@@ -157,10 +157,12 @@ def _c17_instances():
                 t = "thorough"  # 16 has_path calls per run: 6 min / 8 GB
             out.append(I(f"c17::c17_{kind}_{tag}", t, bounds=b, termination=term, shape=tag, kind=kind,
                          est_gb=6 if sh["domain"] == "g34" else 4))
-    # FIRST / nullable: Vob-based code, affordable only at a few small shapes (15-20 GB each): thorough tier
+    # FIRST / nullable: Vob-based code, affordable only at a few small shapes (15-20 GB each): one shape in
+    # the quick tier (a chain of three rules ending in an empty production), the others thorough
     for tag, b in (("a2_b1_c0", "3 user rules, productions len [2,1,0]"), ("a3_b0", "2 user rules, len [3,0]"),
                    ("a21_b0", "2 user rules, len [2,1 | 0]"), ("a2_b2", "2 user rules, len [2 | 2]")):
-        out.append(I(f"c17::c17_first_{tag}", "thorough", bounds="FIRST/nullable, " + b + ", all slots symbolic, unwind 6",
+        out.append(I(f"c17::c17_first_{tag}", "quick" if tag == "a2_b1_c0" else "thorough",
+                     bounds="FIRST/nullable, " + b + ", all slots symbolic, unwind 6",
                      est_gb=20, mem_gb=30, timeout_s=3600))
     return out
 
@@ -169,7 +171,7 @@ PROPS["C17"] = {
     "functions_encoded": [
         "cfgrammar::yacc::YaccGrammar::has_path", "cfgrammar::yacc::grammar::rule_min_costs",
         "cfgrammar::yacc::grammar::rule_max_costs", "SentenceGenerator::{new, min_sentence_cost, max_sentence_cost}",
-        "cfgrammar::yacc::firsts::YaccFirsts::{new, is_set, is_epsilon_set, set} (thorough tier only)",
+        "cfgrammar::yacc::firsts::YaccFirsts::{new, is_set, is_epsilon_set, set}",
         "YaccGrammar::{iter_rules, rule_to_prods, prod, prod_to_rule, rules_len}",
     ],
     "bounds": {
@@ -177,16 +179,17 @@ PROPS["C17"] = {
                  "2 user tokens + EOF; the 10 shapes with the most symbolic slots every run plus 2 further shapes "
                  "per run chosen by VERIF_SEED (36 shapes in all); per shape EVERY symbol slot (token or user rule), "
                  "every token cost in 1..3 and the candidate fixed point X are solver variables; unwind = derived "
-                 "bound (rules + 2 rounds of each fixed-point loop)",
+                 "bound (rules + 2 rounds of each fixed-point loop); FIRST/nullable at the shape a2_b1_c0 (three "
+                 "user rules, productions of length 2, 1, 0)",
         "thorough": "all 36 shapes of G(2,3,2,3) plus 7 hand-picked shapes of G(3,4,3,3) (3 user rules, 4 user "
                     "productions of length <= 3); FIRST/nullable as the least model of the textbook Horn system at "
                     "the shapes a2_b1_c0, a3_b0, a21_b0, a2_b2 (all slots symbolic)",
     },
     "outside_claim": [
         "FOLLOW (YaccFollows::new): out of memory at the smallest relevant shape (DESIGN 4, probe 21; again at "
-        "21 GB with the as-built harness); FIRST / nullable only in the thorough tier at four small shapes "
-        "(15-20 GB each), not in the quick tier",
-        "min_sentence / min_sentences (sentence construction)",
+        "21 GB with the as-built harness, 36 GB with a single user token); FIRST / nullable only at four small "
+        "shapes (15-20 GB each; one of them in the quick tier)",
+        "min_sentence / min_sentences: symbolic execution 23 min then out of memory at 25 GB on the smallest shape",
         "grammars with more rules / productions / longer productions than the domain; token costs > 3",
         "maximum cost of rules on unit-only cycles: 'recursive' and 'unbounded' differ there; None is accepted "
         "for every rule that reaches a reference cycle",
